@@ -1501,12 +1501,12 @@ class Tensor:
 
             if not fiber.isEmpty() and rank_ranges:
                 starts = [range_[0] for range_ in rank_ranges if range_[0] <= fiber.coords[0] and range_[1] > fiber.coords[0]]
-                start = min(starts)
-
                 ends = [range_[1] for range_ in rank_ranges if range_[0] <= fiber.coords[-1] and range_[1] > fiber.coords[-1]]
-                end = max(ends)
 
-                fiber.setActive((start, end))
+                # A coordinate may lie outside every recorded range (e.g.
+                # inserted beyond a stale estimated shape)
+                if starts and ends:
+                    fiber.setActive((min(starts), max(ends)))
 
                 if isinstance(fiber.payloads[0], Fiber):
                     frontier.extend(fiber.payloads)
